@@ -84,7 +84,32 @@ var widePool = func() []rune {
 	return rs
 }()
 
+// narrow alphabets: every rune of a case comes from one class, so that "the largest rune in the dictionary" sits
+// right at, just below or just above an encoding boundary (no other rune hides a boundary mistake)
+var narrow = [][]rune{
+	{'a', 'b', 'c'},
+	{'a', 'b', 0x7f},
+	{'a', 'b', 0x80},
+	{'a', 0x7f, 0x80},
+	{'a', 0x80, 0x81},
+	{0x80, 0x81, 0xbf},
+	{'a', 0xa9, 0xbf, 0xc0},
+	{'a', 0xe9, 0xff},
+	{'a', 0xff, 0x100},
+	{'a', 0x3b1, 0x7ff},
+	{'a', 0x7ff, 0x800},
+	{0x800, 0x801, 0xfff},
+	{'a', 0xd7ff, 0xe000},
+	{'a', 0xfffd},
+	{'a', 0xfffe, 0xffff},
+	{'a', 0xffff, 0x10000},
+	{0x10000, 0x10001, 0x10ffff},
+}
+
 func alphabet(t *rapid.T) []rune {
+	if rapid.IntRange(0, 5).Draw(t, "narrow") == 0 {
+		return append([]rune(nil), rapid.SampledFrom(narrow).Draw(t, "class")...)
+	}
 	n := rapid.IntRange(4, 13).Draw(t, "alphabet")
 	rs := []rune{0xfffd}
 	seen := map[rune]bool{0xfffd: true}
